@@ -155,3 +155,32 @@ Proof.
   - apply String.eqb_eq in E. subst. inversion H. subst. left. reflexivity.
   - right. apply IH. exact H.
 Qed.
+
+(* interpreter/variable dispatch, one method or dispatcher function: names of the case labels of `switch name`,
+   dispatcher functions called with name, regular expressions name is matched against, methods called on v.base,
+   own methods called, switch on strings.ToLower(name) *)
+Record ivmethod := IVM { iv_cases : list string; iv_calls : list string; iv_regexes : list string;
+                         iv_base : list string; iv_self : list string; iv_lower : bool }.
+
+(* ---- lifting of boolean checks over finite tables; lazily evaluated connectives *)
+Lemma forallb2_lift : forall A B (f : A -> B -> bool) (la : list A) (lb : list B),
+  forallb (fun a => forallb (f a) lb) la = true -> forall a b, In a la -> In b lb -> f a b = true.
+Proof.
+  intros A B f la lb H a b Ha Hb.
+  rewrite forallb_forall in H. specialize (H a Ha). rewrite forallb_forall in H. exact (H b Hb).
+Qed.
+
+(* lazily evaluated connectives (vm_compute is call-by-value: `a || b` would evaluate b on every cell) *)
+Definition lor_ (a : bool) (b : unit -> bool) : bool := if a then true else b tt.
+Definition limp (a b : bool) (c : unit -> bool) : bool := if a then (if b then true else c tt) else true.
+Lemma lor_true : forall a b, lor_ a b = true -> a = true \/ b tt = true.
+Proof. intros [] b; simpl; auto. Qed.
+Lemma limp_or : forall a b c, limp a b c = true -> a = true -> b = true \/ c tt = true.
+Proof. intros [] [] c; simpl; intros; auto; discriminate. Qed.
+
+Lemma forallb_assoc_lift : forall A (f : string -> A -> bool) (l : list (string * A)) name a,
+  forallb (fun kv => f (fst kv) (snd kv)) l = true -> assoc name l = Some a -> f name a = true.
+Proof.
+  intros A f l name a H E. rewrite forallb_forall in H. exact (H (name, a) (assoc_in _ _ _ _ E)).
+Qed.
+
